@@ -694,6 +694,104 @@ def r15_11(ctx, rep):
         raise MechanismMissing(R, "fewer than 4 named inputs of in-loop ca.Function constructions found in _simplify_once")
 
 
+@SPEC.rule(
+    "R15.12",
+    "an equation is either consumed or kept: the loops of _simplify_once that rebuild self.equations (they append the loop's equation to a "
+    "list that is later assigned to self.equations) contain no `break` of their own — the equations not yet visited when the loop is left "
+    "would vanish without any unknown having been removed for them",
+)
+def r15_12(ctx, rep):
+    R = "R15.12"
+    fn = simplify_fn(ctx, R)
+    site = MODEL + ":Model._simplify_once"
+    kept_lists = {norm(st.value) for st in ast.walk(fn) if isinstance(st, ast.Assign) and norm(st.targets[0]) in ("self.equations", "self.initial_equations")
+                  and isinstance(st.value, ast.Name)}
+    n = 0
+    for lp in ast.walk(fn):
+        if not (isinstance(lp, ast.For) and norm(lp.iter) in ("self.equations", "self.initial_equations") and isinstance(lp.target, ast.Name)):
+            continue
+        v = lp.target.id
+        appends = [c for c in ast.walk(lp) if isinstance(c, ast.Call) and isinstance(c.func, ast.Attribute) and c.func.attr == "append" and norm(c.func.value) in kept_lists
+                   and c.args and is_name(c.args[0], v)]
+        if not appends:
+            continue
+        n += 1
+        breaks = []
+        def own_breaks(node, top):
+            for ch in ast.iter_child_nodes(node):
+                if isinstance(ch, (ast.For, ast.While, ast.FunctionDef, ast.Lambda)) and ch is not top:
+                    continue
+                if isinstance(ch, ast.Break):
+                    breaks.append(ch)
+                own_breaks(ch, top)
+        own_breaks(lp, lp)
+        rep.ob(R, site, "filter loop over %s (line %d) visits every equation" % (norm(lp.iter), lp.lineno), not breaks,
+               "the loop is left with `break` at line %s: the equations after that point are neither examined nor copied to `%s`, they disappear from the model"
+               % (", ".join(str(b.lineno) for b in breaks), norm(appends[0].func.value)))
+    if n < 3:
+        raise MechanismMissing(R, "fewer than 3 equation-filtering loops found in _simplify_once")
+
+
+@SPEC.rule(
+    "R15.13",
+    "removed means substituted: in the elimination pass for eliminable variables every statement that takes a variable out of a category "
+    "table (`del T[name]`, `T.pop(name)`) hands that variable's symbol to the substitution list on every path to the end of the iteration "
+    "— the derivative of an eliminated state included, also when the derivative it is replaced by is zero (it may still occur in other equations)",
+)
+def r15_13(ctx, rep):
+    R = "R15.13"
+    fn = simplify_fn(ctx, R)
+    site = MODEL + ":Model._simplify_once"
+    blk = option_blocks(fn).get("eliminable_variable_expression")
+    if blk is None:
+        raise MechanismMissing(R, "eliminable_variable_expression block not found")
+    subs = substitutions(blk.body)
+    sym_lists = {s_["symbols"] for s_ in subs}
+    loops = [lp for lp in blk.body if isinstance(lp, ast.For) and norm(lp.iter) == "self.equations"]
+    if not loops or not sym_lists:
+        raise MechanismMissing(R, "equation loop / substitution lists of the pass not found")
+    lp = loops[0]
+    cfg = CFG(ast.Module(body=[lp], type_ignores=[]), R)
+    it = [x for x in cfg.nodes if x.kind == "iter" and x.ast is lp][0]
+    n = 0
+    for x in cfg.stmts():
+        removed = []  # (description, name the symbol must be appended under, or None when the pop sits inside the append itself)
+        a = x.ast
+        if isinstance(a, ast.Delete):
+            for t in a.targets:
+                if isinstance(t, ast.Subscript) and isinstance(t.slice, ast.Call) and isinstance(t.slice.func, ast.Attribute) and t.slice.func.attr == "name":
+                    removed.append((norm(t), norm(t.slice.func.value), None))
+        for c in calls(a):
+            if isinstance(c.func, ast.Attribute) and c.func.attr == "pop" and c.args and isinstance(c.args[0], ast.Call) and isinstance(c.args[0].func, ast.Attribute) \
+                    and c.args[0].func.attr == "name":
+                in_append = any(isinstance(o, ast.Call) and isinstance(o.func, ast.Attribute) and o.func.attr == "append" and norm(o.func.value) in sym_lists
+                                and any(z is c for z in ast.walk(o)) for o in calls(a))
+                holder = a.targets[0].id if isinstance(a, ast.Assign) and isinstance(a.targets[0], ast.Name) else None
+                removed.append((norm(c), None if in_append else (holder or "?"), "pop"))
+        for what, need, kind in removed:
+            n += 1
+            if kind == "pop" and need is None:
+                rep.ob(R, site, "`%s` goes straight into the substitution list" % what[:50], True, "")
+                continue
+            sinks = {y.id for y in cfg.stmts() if any(isinstance(o.func, ast.Attribute) and o.func.attr == "append" and norm(o.func.value) in sym_lists and o.args
+                                                      and (norm(o.args[0]) == need or norm(o.args[0]).startswith(need + ".")) for o in calls(y.ast))}
+            w = cfg.path(x.id, it.id, avoid=sinks) if sinks else [x]
+            rep.ob(R, site, "`%s` is followed by its substitution on every path" % what[:50], bool(sinks) and w is None,
+                   "the variable is taken out of its table but `%s` does not reach %s.append(...) on some path: other equations keep referring to a symbol that is no "
+                   "longer a variable of the model" % (need, "/".join(sorted(sym_lists))), path=cfg.describe(w) if w and sinks else "")
+    if n < 3:
+        raise MechanismMissing(R, "fewer than 3 removals from the category tables found in the elimination loop")
+
+
+@SPEC.rule(
+    "R15.14",
+    "every equation and variable is handled under its own name: no function of the CasADi model reads a for-loop's variable after that loop has ended (the value the last iteration left behind)",
+)
+def r15_14(ctx, rep):
+    from ._literal import no_stale_loop_variables
+    no_stale_loop_variables(ctx, rep, "R15.14", MODEL, "the CasADi model")
+
+
 # -- seeded variants ---------------------------------------------------------
 from ._mut import delete_stmt_where, replace_in_func, replace_stmt_where  # noqa: E402
 
@@ -927,6 +1025,34 @@ def _m_hoist(mod):
                                         inner.body = keep
                                         lst[i:i] = moved
                                         return True
+        return False
+
+    return mod if replace_in_func(mod, "Model._simplify_once", edit) else None
+
+
+@SPEC.mutant("filter loop left early once no candidate remains", MODEL, "R15.12", "visits every equation")
+def _m_break_filter(mod):
+    def edit(fn):
+        for lp in ast.walk(fn):
+            if isinstance(lp, ast.For) and norm(lp.iter) == "self.equations" and any("alg_states.pop(" in norm(b) for b in lp.body):
+                lp.body.insert(0, ast.parse("if not alg_states:\n    break").body[0])
+                return True
+        return False
+
+    return mod if replace_in_func(mod, "Model._simplify_once", edit) else None
+
+
+@SPEC.mutant("zero derivative of an eliminated state not substituted", MODEL, "R15.13", "followed by its substitution")
+def _m_zero_der(mod):
+    def edit(fn):
+        for n in ast.walk(fn):
+            for f in ("body", "orelse"):
+                lst = getattr(n, f, None)
+                if isinstance(lst, list):
+                    for i, st in enumerate(lst):
+                        if isinstance(st, ast.Expr) and norm(st).startswith("variables.append(der_states.pop("):
+                            lst[i:i + 2] = ast.parse("der_symbol = der_states.pop(variable.name()).symbol\nif not ca.MX(derivative).is_zero():\n    variables.append(der_symbol)\n    values.append(derivative)").body
+                            return True
         return False
 
     return mod if replace_in_func(mod, "Model._simplify_once", edit) else None
